@@ -233,7 +233,7 @@ PROPS = {
     ),
     'C04': dict(
         title='Zinc text conforms to the Project Haystack grammar in both directions',
-        verus=[('u_zparse', [r'^parse_str_escape$', r'^parse_str_unicode_escape$', r'^parse_str$', r'^Lexer::read$', r'^parse_literal$', r'^parse_id$', r'^lemma_lit_run_bytes$', r'^parse_unit$', r'^is_unit_char$']),
+        verus=[('u_zparse', [r'^parse_str_escape$', r'^parse_str_unicode_escape$', r'^parse_str$', r'^Lexer::read$', r'^parse_literal$', r'^parse_id$', r'^lemma_lit_run_bytes$', r'^parse_unit$', r'^is_unit_char$', r'^parse_uri$']),
                ('u_enc', [r'^write_quoted_str$', r'^write_str$', r'::to_zinc$', r'::zinc_encode$', r'^list_to_zinc$', r'^write_dict_tags$', r'^Column::to_zinc$', r'^Dict::to_zinc$', r'^Grid::to_zinc$', r'^Value::to_zinc$', r'^lemma_ver_line$', r'^enc_(value|items|tag|tags|meta|col|cols|cells|rows|grid)$', r'^grid_head$', r'^dict_find$'])],
         kani=[dict(harness='k_scanner_classes', klass='complete', schema=['u8'], family=None, target='Scanner::is_* byte classes'),
               dict(harness='k_unit_char_class', klass='complete', schema=['u8'], family=None, target='zinc number::is_unit_char'),
@@ -255,7 +255,7 @@ PROPS = {
                     'written in inner-grid mode; DateTime is RFC 3339 text followed by a space and the zone name exactly when the value is not UTC.'),
         not_decided=('number spelling '
                      '(the string handed to str::parse::<f64>); the text core::fmt / chrono produce for numbers, dates, times, coordinates and the '
-                     'capitalised XStr type (uninterpreted functions of the value); Uri (trusted, `continue` in `for`); the reader side of composite layout '
+                     'capitalised XStr type (uninterpreted functions of the value); the reader side of composite layout '
                      '(the decoder is proved panic-free and terminating, not against enc_value); Dict is seen through its entry list in key order. The unit class tests `> 128`, i.e. excludes '
                      'byte 0x80 that the grammar admits -- harmless: no database unit contains it (C15 lemma).'),
         technique='contract-based deductive verification: Verus per-letter postconditions on the real body + Kani complete byte-class harnesses',
@@ -273,7 +273,7 @@ PROPS = {
                     '(incl. zero columns with rows, zero rows, nested grids), Column, write_dict_tags and the recursive Value dispatcher return Ok and cannot panic '
                     'for any field values (every String ranges over all strings incl. empty and non-ASCII); string slicing, where it occurs, '
                     'carries std\'s panic condition as a precondition (rule R13). The Hayson Serialize impls of every kind except Number are proved panic-free on their real bodies (u_jenc). Kani: Number::serialize (Hayson) is panic-free over all f64.'),
-        not_decided=('Uri::to_zinc (its `continue` inside `for` is outside this Verus; trusted: it only writes to a Vec); the collection writers '
+        not_decided=('XStr::to_zinc is proved panic-free under the name to_zinc_body (its text is an uninterpreted function of the value); the collection writers '
                      'are proved on index loops obtained from their enumerate() loops by rule R19 (trusted: Enumerate over a slice iterator yields (i, &v[i])); Display/to_string wrappers; the serializer behind the Serialize impls (serde_json); core::fmt itself (assumed not to fail or panic for the literals used); recursion depth.'),
     ),
     'C17': dict(
@@ -323,8 +323,8 @@ PROPS = {
         title='Zinc encode -> decode returns the original value',
         verus=[('u_zparse', [r'^lemma_keyword_roundtrip$', r'^Lexer::read$', r'^parse_literal$', r'^parse_str_escape$', r'^lemma_lit_run_bytes$',
                              r'^parse_str$', r'^parse_str_unicode_escape$', r'^lemma_str_body_plain$', r'^lemma_hex4_value$', r'^lemma_str_body_char$',
-                             r'^lemma_str_body_enc$', r'^lemma_str_roundtrip$', r'^parse_ref$', r'^lemma_ref_run_prefix$', r'^lemma_ref_roundtrip$']),
-               ('u_enc', [r'^write_quoted_str$', r'^Str::to_zinc$', r'^Ref::to_zinc$', r'^lemma_str_escape_inverse$', r'^Marker::to_zinc$', r'^Remove::to_zinc$', r'^Na::to_zinc$', r'^Bool::to_zinc$', r'^Number::to_zinc$'])],
+                             r'^lemma_str_body_enc$', r'^lemma_str_roundtrip$', r'^parse_ref$', r'^lemma_ref_run_prefix$', r'^lemma_ref_roundtrip$', r'^parse_uri$', r'^lemma_uri_body_plain$', r'^lemma_uri_body_char$', r'^lemma_uri_body_enc$', r'^lemma_uri_roundtrip$']),
+               ('u_enc', [r'^write_quoted_str$', r'^Str::to_zinc$', r'^Ref::to_zinc$', r'^Uri::to_zinc$', r'^lemma_str_escape_inverse$', r'^Marker::to_zinc$', r'^Remove::to_zinc$', r'^Na::to_zinc$', r'^Bool::to_zinc$', r'^Number::to_zinc$'])],
         kani=[dict(harness='k_zinc_keywords', klass='complete', schema=['u8'], family=None, target='to_zinc of Marker/Remove/Na/Bool')],
         witness='enum:zinc-roundtrip-scalars',
         design_ref='DESIGN.md section 4, C01',
@@ -336,15 +336,18 @@ PROPS = {
                     '(1b) Refs with and without display name: Ref::to_zinc emits @id [space "enc(dis)"], parse_ref reads @ + the maximal run of '
                     'ref bytes as the id and a following space-quote as a Zinc string display name, and lemma_ref_roundtrip composes them for '
                     'every id over the ref alphabet and every display name. '
+                    '(1c) Uris: Uri::to_zinc emits backtick + enc_uri_body + backtick (backtick and backslash escaped, every other character as '
+                    'itself), parse_uri returns utf8_decode(uri_body(bytes after the backtick)) on its real body, and lemma_uri_roundtrip composes them '
+                    'for every Uri without C0 control characters (which the writer drops; the property excludes them). '
                     '(2) Keyword-valued scalars (Marker, Remove, NA, true, false; Null on the reader side): the real writers emit M R NA T F '
                     '(Verus after rule R18, and Kani), Lexer::read maps a capitalised literal through the grammar\'s keyword table, and '
                     'lemma_keyword_roundtrip composes them.'),
-        not_decided=('XStr (its value reuses the proved quoted-string writer and reader; the Type( ) framing is proved panic-free only); Uri, Symbol; '
+        not_decided=('XStr (its value reuses the proved quoted-string writer and reader; the Type( ) framing is proved panic-free only); Symbol; '
+                     'the Uri reader clause, like the Ref one, assumes an empty peek stash at the start of the token; '
                      'the Ref reader clause assumes an empty peek stash at the start of the token (true after every token the lexer produces, not proved); Number, Coord, Date, Time, DateTime (core::fmt / chrono text); List, Dict and Grid '
-                     'layout (enumerate() loops); nesting. Assumed: the UTF-8 axioms of strspec.vt, the two core::fmt helper contracts used by '
+                     'layout on the reader side; nesting. Assumed: the UTF-8 axioms of strspec.vt, the two core::fmt helper contracts used by '
                      'the string writer (\\u{:04x} of a code point, {} of one character), u16::from_str_radix and String::from_utf16_lossy. '
-                     'Known outside the decided part: a grid with meta is written with the meta after the newline and does not decode; '
-                     'a Uri containing a lone backslash comes back with two.'),
+                     'The writer side of List, Dict and Grid layout is proved against the grammar (C04); their reader side is proved total only.'),
         technique='contract-based deductive verification: Verus postconditions on the real lexer + Kani complete harness on the real keyword writers',
     ),
 }
